@@ -67,7 +67,9 @@ def obligation(ctx, f: Func, label: str, spec_src: str, exc: str, *, rename=None
     pm = astx.parents(f.node)
     # in the inlining attempt the names the spec shares with the function (e.g. `df`) expand the same way on both sides
     spec_norm = Normalizer(f.node, None, inline=True, int_atoms=int_atoms, extra_env=extra_env) if inline else Normalizer(None, None, inline=False, int_atoms=int_atoms)
+    n_miss = len(astx.MISSES)
     spec = simplify(spec_norm.guard(ast.parse(spec_src, mode="eval").body))
+    del astx.MISSES[n_miss:]  # spec symbols (L, k, NC, b ...) are not locals the rule expected to find
     satoms = set(atoms_of(spec))
     allr = raise_guards(f, N, pm)
     scored = []
